@@ -18,6 +18,7 @@ Deliver, for k = 1 and 2, a directory @ROOT@/@ID@/SEED/<k>/ containing: `patch.d
 
 Final report: for each of the two changes, the summary, what it needs to manifest, and the verification you performed.
 '''
+EXTRA = os.environ.get('SEED_EXTRA', '')
 root = sys.argv[1]
 ids = sys.argv[2:]
 os.makedirs(root, exist_ok=True)
@@ -29,5 +30,5 @@ for l in open(os.path.join(V, 'properties.jsonl')):
         if not os.path.isdir(wt):
             subprocess.run(['git', '-C', '/repo', 'worktree', 'add', '-q', '--detach', wt, 'HEAD'], check=True)
         prop = "%s — %s\n\nStatement: %s\n\nQuantified over: %s\n" % (d['id'], d['title'], d['statement'], d['quantifier']['text'])
-        open(os.path.join(root, d['id'] + '.prompt.txt'), 'w').write(TEMPLATE.replace('@ROOT@', root).replace('@ID@', d['id']).replace('@PROP@', prop))
+        open(os.path.join(root, d['id'] + '.prompt.txt'), 'w').write((TEMPLATE + ('\n' + EXTRA + '\n' if EXTRA else '')).replace('@ROOT@', root).replace('@ID@', d['id']).replace('@PROP@', prop))
         print('prepared', wt)
